@@ -1,16 +1,18 @@
-"""C14 — tagfilter.  Theorems: coq/Props/C14.v.  Tie: translator items `ctype` + `tagfilter` (blacklist,
+"""C14 — tagfilter.  Theorems: coq/Props/C14.v.  Tie: translator item `tagfilter` (blacklist, terminator byte set,
 bodies of tagfilter / tagfilter_block, option cascade of the two raw-HTML renderers) + correspondences
 leaf.tagfilter, leaf.tagfilter_block, render.html_block, render.html_inline.
 Search on the implementation: the extracted GFM spec (Spec/GfmFilter.v: disallowed_at, gfm_filter,
 lt_escape_first, any_disallowed, lt_expansion) evaluated against the compiled functions, against trees
-rendered with and without the option, and against documents rendered end to end."""
-import itertools, os
+rendered with and without the option, and against documents rendered end to end.
+The witness of the repaired finding C14-a (tagfilter_vt_ff: a name followed by form feed / line tabulation was
+not neutralised) is replayed on every run; no input class is excused."""
+import itertools, json, os
 import vlib, docgen
 from vlib import hx, unhx
 
 NAMES = ["title", "textarea", "style", "xmp", "iframe", "noembed", "noframes", "script", "plaintext"]
 ALPHABET = [b"<", b"/", b">", b" ", b"\n", b'"', b"t", b"T", b"i", b"l", b"e", b"x", b"s"]
-KNOWN_CLASS = "tagfilter_vt_ff"
+FIXED_ID = "C14-a"          # repaired: replayed below, excuses nothing
 OMITTED = b"<!-- raw HTML omitted -->"
 
 
@@ -82,14 +84,46 @@ def okhex(line):
     return None
 
 
-def has_vtff(s):
-    return b"\x0b" in s or b"\x0c" in s
+def replay_fixed_witness(c, vh, drv):
+    """the recorded witness of the repaired finding C14-a must be neutralised by the compiled code: leaf
+    functions, the witness as an HtmlBlock / HtmlInline literal, and the recorded Markdown end to end"""
+    with open(os.path.join(vlib.ROOT, "known_findings.json")) as f:
+        ent = [e for e in json.load(f)["findings"] if e.get("id") == FIXED_ID]
+    if len(ent) != 1 or not isinstance(ent[0].get("witness"), dict):
+        c.problem("spec", "known_findings:" + FIXED_ID, "entry or its witness is missing from known_findings.json")
+        return
+    e, w = ent[0], ent[0]["witness"]
+    why = f"the witness of the repaired class {e['class']} ({e['id']}, {e.get('commit')}) is not neutralised: the repair is missing from this tree or the defect has returned"
+    rows = []
+    lits = [unhx(w["input"])] + [unhx(x) for x in w.get("more_inputs", [])]
+    for s in lits:
+        a = vlib.run_one(vh, f"tagfilter {hx(s)}")
+        b = vlib.run_one(vh, f"tagfilter_block {hx(s)}")
+        c.count(b"fixed-witness:" + s, True)
+        ok = a == "ok 1" and okhex(b) == b"&lt;" + s[1:]
+        if ok:
+            ok = vlib.run_one(drv, f"any_disallowed {hx(okhex(b))}") == "ok 0"
+        rows.append({"input": hx(s), "tagfilter": a, "tagfilter_block": b, "passes": ok})
+        if not ok:
+            c.violation(why, {"fn": "tagfilter / tagfilter_block", "input": hx(s), "tagfilter": a, "expected_tagfilter": "ok 1",
+                              "tagfilter_block": b, "expected_tagfilter_block": "ok " + hx(b"&lt;" + s[1:]), "line": f"tagfilter_block {hx(s)}"})
+    md, optok = w["markdown"].encode("utf-8"), w["options"]
+    line = f"md html {optok} {hx(md)}"
+    a = vlib.run_one(vh, line)
+    got = okhex(a.split(" S")[0])
+    c.count(b"fixed-witness-md:" + md, True)
+    ok = got is not None and got.decode("utf-8", "replace") == w["expected_html"]
+    rows.append({"markdown": w["markdown"], "options": optok, "passes": ok})
+    if not ok:
+        c.violation(why, {"markdown": w["markdown"], "options": optok, "expected_html": w["expected_html"],
+                          "observed_html": (got.decode("utf-8", "replace") if got is not None else a)[:600], "line": line})
+    c.cov["spec_checks"]["witness of the repaired class tagfilter_vt_ff is neutralised (leaf functions and end to end)"] = rows
 
 
 def main(tier):
     c = vlib.Check("C14", tier)
     rng = c.rng
-    c.phase_translator(["ctype", "tagfilter"])
+    c.phase_translator(["tagfilter"])
     c.phase_proofs()
     if not c.phase_builds(("debug",)):
         c.finish(rule="build failed")
@@ -105,26 +139,19 @@ def main(tier):
     edges = edge_literals()
     rnd = gen_random(rng, 20000 if quick else 150000, 6 if quick else 60)
     cases = exh + prod + edges + rnd
-    nl = {b"\x0b", b"\x0c"}
+
+    replay_fixed_witness(c, vh, drv)
 
     def run_both(fn, inputs):
         lines = [f"{fn} {hx(s)}" for s in inputs]
         return vlib.run_lines(vh, lines), vlib.run_lines(drv, lines)
 
-    def classify(what, s, observed, wide, narrow, case):
-        """the implementation's result differs from the GFM reading: known class or violation"""
-        if has_vtff(s) and observed == narrow and observed != wide:
-            c.known_hit(KNOWN_CLASS, case)
-        else:
-            c.violation(what, case)
-
     # leaf.tagfilter
     impl, model = run_both("tagfilter", cases)
     spec = vlib.run_lines(drv, [f"disallowed_at {hx(s)}" for s in cases])
-    specn = vlib.run_lines(drv, [f"disallowed_at_narrow {hx(s)}" for s in cases])
     agree = 0
     hits = 0
-    for s, a, m, w, n in zip(cases, impl, model, spec, specn):
+    for s, a, m, w in zip(cases, impl, model, spec):
         c.count(b"tagfilter:" + s, b"<" in s)
         if a == m:
             agree += 1
@@ -133,13 +160,13 @@ def main(tier):
         if not a.startswith("ok "):
             c.violation("tagfilter does not return normally (rendering a raw-HTML node must never fail)", {"fn": "tagfilter", "input": hx(s), "observed": a})
         elif a != w:
-            classify("tagfilter(literal) differs from the GFM rule (LT, optional SLASH, disallowed name in any case, then whitespace, GT or SLASH GT)",
-                     s, a, w, n, {"fn": "tagfilter", "input": hx(s), "impl": a, "gfm_spec": w})
+            c.violation("tagfilter(literal) differs from the GFM rule (LT, optional SLASH, disallowed name in any case, then whitespace, GT or SLASH GT)",
+                        {"fn": "tagfilter", "input": hx(s), "impl": a, "gfm_spec": w})
         if a == "ok 1":
             hits += 1
     c.cov["correspondences"]["leaf.tagfilter"] = {"cases": len(cases), "agree": agree, "positive": hits,
                                                   "exhaustive_len_le_5_alphabet13": len(exh), "product": len(prod), "edge": len(edges), "random": len(rnd)}
-    c.cov["spec_checks"]["tagfilter: impl(s) = disallowed_at(s) outside the known class"] = len(cases)
+    c.cov["spec_checks"]["tagfilter: impl(s) = disallowed_at(s)"] = len(cases)
     c.cov["samples"].append({"fn": "tagfilter", "input": hx(prod[40]), "impl": impl[len(exh) + 40], "spec": spec[len(exh) + 40]})
 
     T('leaf.tagfilter done')
@@ -151,11 +178,10 @@ def main(tier):
     model_small = iter(vlib.run_lines(drv, [f"tagfilter_block {hx(s)}" for s, k in zip(cases, small) if k]))
     model = [next(model_small) if k else None for k in small]
     spec = vlib.run_lines(drv, [f"gfm_filter {hx(s)}" for s in cases])
-    specn = vlib.run_lines(drv, [f"gfm_filter_narrow {hx(s)}" for s in cases])
     agree = 0
     changed = 0
     live = []
-    for s, a, m, w, n in zip(cases, impl, model, spec, specn):
+    for s, a, m, w in zip(cases, impl, model, spec):
         c.count(b"tagfilter_block:" + s, b"<" in s)
         if m is None:
             pass
@@ -171,21 +197,18 @@ def main(tier):
             changed += 1
         live.append((s, o))
         if a != w:
-            classify("tagfilter_block(literal) differs from gfm_filter(literal): a disallowed tag was not neutralised or something else was altered",
-                     s, a, w, n, {"fn": "tagfilter_block", "input": hx(s), "impl": a, "gfm_spec": w})
+            c.violation("tagfilter_block(literal) differs from gfm_filter(literal): a disallowed tag was not neutralised or something else was altered",
+                        {"fn": "tagfilter_block", "input": hx(s), "impl": a, "gfm_spec": w})
     c.cov["correspondences"]["leaf.tagfilter_block"] = {"cases": sum(small), "agree": agree, "spec_only_large_blocks": len(cases) - sum(small), "output_differs_from_input": changed}
     # spec predicates on the implementation's own outputs
     surv = vlib.run_lines(drv, [f"any_disallowed {hx(o)}" for _, o in live])
     expn = vlib.run_lines(drv, [f"lt_expansion {hx(s)} {hx(o)}" for s, o in live])
     for (s, o), sv, ex in zip(live, surv, expn):
         if sv != "ok 0":
-            if has_vtff(s):
-                c.known_hit(KNOWN_CLASS, {"fn": "tagfilter_block", "input": hx(s), "output": hx(o), "any_disallowed": sv})
-            else:
-                c.violation("a disallowed tag survives in the output of tagfilter_block", {"fn": "tagfilter_block", "input": hx(s), "output": hx(o), "any_disallowed": sv})
+            c.violation("a disallowed tag survives in the output of tagfilter_block", {"fn": "tagfilter_block", "input": hx(s), "output": hx(o), "any_disallowed": sv})
         if ex != "ok 1":
             c.violation("tagfilter_block output is not the input with some LT written as &lt; (something else was altered)", {"fn": "tagfilter_block", "input": hx(s), "output": hx(o), "lt_expansion": ex})
-    c.cov["spec_checks"]["tagfilter_block: impl(s) = gfm_filter(s) outside the known class; any_disallowed(impl(s)) = false; lt_expansion(s, impl(s))"] = len(live)
+    c.cov["spec_checks"]["tagfilter_block: impl(s) = gfm_filter(s); any_disallowed(impl(s)) = false; lt_expansion(s, impl(s))"] = len(live)
     c.cov["samples"].append({"fn": "tagfilter_block", "input": hx(prod[41]), "impl": impl[len(exh) + 41]})
 
     T('leaf.tagfilter_block done')
@@ -218,9 +241,7 @@ def main(tier):
         return docgen.opts_token(d)
 
     wide_b = [okhex(x) for x in vlib.run_lines(drv, [f"gfm_filter {hx(s)}" for s in lits])]
-    narrow_b = [okhex(x) for x in vlib.run_lines(drv, [f"gfm_filter_narrow {hx(s)}" for s in lits])]
     wide_i = [okhex(x) for x in vlib.run_lines(drv, [f"lt_escape_first {hx(s)}" for s in lits])]
-    dis_n = vlib.run_lines(drv, [f"disallowed_at_narrow {hx(s)}" for s in lits])
     for kind, pre, post, wide in (("block", PRE_B, POST_B, wide_b), ("inline", PRE_I, POST_I, wide_i)):
         lines = []
         mlines = []
@@ -272,14 +293,7 @@ def main(tier):
             if with_ != want:
                 case = {"line": lines[ix * len(OPTS) + 1], "node": kind, "literal": hx(s), "options": "unsafe=1 vs tagfilter=1,unsafe=1",
                         "without": hx(without), "with": hx(with_), "gfm_expected": hx(want)}
-                if kind == "block":
-                    narrow_want = pre + narrow_b[ix] + tail
-                else:
-                    narrow_want = pre + ((b"&lt;" + s[1:]) if dis_n[ix] == "ok 1" else s) + tail
-                if has_vtff(s) and with_ == narrow_want:
-                    c.known_hit(KNOWN_CLASS, case)
-                else:
-                    c.violation(f"Html{kind.capitalize()} under unsafe+tagfilter: output is not the unfiltered output with the GFM-disallowed LT written as &lt;", case)
+                c.violation(f"Html{kind.capitalize()} under unsafe+tagfilter: output is not the unfiltered output with the GFM-disallowed LT written as &lt;", case)
         c.cov["correspondences"][f"render.html_{kind}"] = {"cases": ncases, "agree": agree, "literals": len(lits), "option_sets": len(OPTS)}
         c.cov["spec_checks"][f"render html Html{kind.capitalize()}: with = without[literal := {'gfm_filter' if kind == 'block' else 'lt_escape_first'}(literal)]; option inert under escape / not unsafe; no panic"] = len(lits)
         c.cov["samples"].append({"op": "render html", "node": kind, "literal": hx(lits[len(exh_tree) + 10]), "impl_unsafe_tagfilter": impl[(len(exh_tree) + 10) * len(OPTS) + 1]})
@@ -351,15 +365,11 @@ def main(tier):
             elif tk == "HtmlInline" and i + 5 < len(toks):
                 inl.append((lw, unhx(toks[i + 5]), ob))
     fb = vlib.run_lines(drv, [f"gfm_filter {hx(l)}" for _, l, _ in blk])
-    fbn = vlib.run_lines(drv, [f"gfm_filter_narrow {hx(l)}" for _, l, _ in blk])
     fi = vlib.run_lines(drv, [f"lt_escape_first {hx(l)}" for _, l, _ in inl])
-    for (lw, l, ob), w, n in zip(blk, fb, fbn):
+    for (lw, l, ob), w in zip(blk, fb):
         if okhex(w) not in ob:
             case = {"line": lw, "html_block_literal": hx(l), "gfm_filtered": w, "output": hx(ob)}
-            if has_vtff(l) and okhex(n) in ob:
-                c.known_hit(KNOWN_CLASS, case)
-            else:
-                c.violation("end to end: an HTML block of the parsed document does not appear gfm-filtered in the tagfilter output", case)
+            c.violation("end to end: an HTML block of the parsed document does not appear gfm-filtered in the tagfilter output", case)
     # (inline literals can be rendered as plain text, e.g. inside an image description, so no substring claim
     #  is made for them; they are covered by the tree search above and by lt_expansion here)
     inl_seen = sum(1 for (lw, l, ob), w in zip(inl, fi) if okhex(w) in ob)
@@ -374,15 +384,14 @@ def main(tier):
     c.cov["input_distribution"] = {"exhaustive_len_le_5": len(exh), "product": len(prod), "edge": len(edges), "random": len(rnd),
                                    "tree_literals": len(lits), "documents": len(docs)}
     c.cov["partial_clauses"] = [
-        "GFM reading (line tabulation U+000B and form feed U+000C end a tag name, as in cmark-gfm): refuted in Coq (C14_tagfilter_spec_refuted, C14_tagfilter_block_spec_refuted, C14_block_clean_refuted), holds for inputs without those two bytes (.._partial); known finding tagfilter_vt_ff",
         "inline literals: only the leading LT is examined (C14_inline_cascade); parser-produced inline literals are one construct",
         "the cascade theorems are about the bytes written for the literal; context.cr() and the surrounding renderer are tied by the render.html_* correspondence only"]
     c.assumptions = [
-        "Model/Tagfilter.v is a hand transcription of tagfilter, tagfilter_block and the literal-writing cascade of render_html_block / render_html_inline; blacklist, ctype table, both bodies and both cascades are regenerated / shape-checked from src on every run (translator items ctype, tagfilter)",
+        "Model/Tagfilter.v is a hand transcription of tagfilter, tagfilter_block and the literal-writing cascade of render_html_block / render_html_inline; blacklist, the byte set that ends a tag name (the matches! pattern), both bodies and both cascades are regenerated / shape-checked from src on every run (translator item tagfilter)",
         "tagfilter_block's index arithmetic is modelled on list suffixes (input[i..]); the inner loop's input[i] is guarded by i < size in the same condition (pinned by the shape check)",
         "io::Write is modelled as an infallible append-only buffer; context.escape is html::escape (C19 model)"]
     c.finish(rule="distinct by (operation, options, input bytes); non-trivial = the literal / document contains at least one LT byte (for rendered trees additionally: raw HTML is allowed and not escaped, so the tagfilter branch is the one taken)",
              trusted_base=["Coq 8.16.1 kernel (vm_compute for the 256-byte finite checks and the blacklist facts)", "no axioms (Print Assumptions: closed for every theorem)",
-                           "tools/gen_model.py recognisers (TAGFILTER_BLACKLIST, whole-body comparison of tagfilter / tagfilter_block, cascade fragments, ctype table)",
+                           "tools/gen_model.py recognisers (TAGFILTER_BLACKLIST, terminator pattern of tagfilter, whole-body comparison of tagfilter / tagfilter_block, cascade fragments)",
                            "extraction (ExtrOcamlBasic only, no Extract Constant) + ocaml/driver.ml byte mapping (self-checked at start-up)",
                            "harness/src (hex protocol, tree builder, catch_unwind)"])
